@@ -7,7 +7,7 @@
 set -u
 N=$1; shift
 IDS=("$@")
-ROOT=/var/tmp/hbv-lanes
+ROOT=${HBV_LANES_ROOT:-/var/tmp/hbv-lanes}
 mkdir -p $ROOT
 pids=()
 for ((i = 0; i < N; i++)); do
